@@ -2,6 +2,7 @@ package props
 
 import (
 	"crypto/ecdsa"
+	"crypto/ed25519"
 	"crypto/sha256"
 	"encoding/hex"
 	"encoding/json"
@@ -193,6 +194,14 @@ func c18Build(c *c18Case) (shared []any, ops []c18Op, err error) {
 	}
 	if err != nil {
 		return nil, nil, err
+	}
+	if c.KeyIdx == -1 {
+		// a hand-built key may hold its coordinates as any byte-slice type (the accessors' documentation
+		// allows it): here the Go key type itself
+		if x, ok := key.Params[cose.KeyLabelOKPX].([]byte); ok {
+			key.Params[cose.KeyLabelOKPX] = ed25519.PublicKey(x)
+			stats.Class("key/coordinate-held-as-named-byte-type")
+		}
 	}
 	if c.KeyIdx%2 == 0 {
 		// as received from a peer that omits alg (label 3): Key.Algorithm stays unset
